@@ -90,6 +90,11 @@ def gen_case(rng, exact=True):
         ts = [(lin, F(rng.randint(0, 8)))]
         order = rng.choice([[5], [5, 1], [2, 5], [1, 2, 3, 4, 5]])
         simplify = False
+    elif rng.random() < 0.22:
+        # a matrix of context rows over three or four eliminated variables (Kaykobad test of tactics 1 and 3)
+        ts, ctx, elim, _kept = gen.kaykobad_case(rng, refine)
+        order = rng.choice([[1], [1], [3], [1, 2, 3, 4, 5], [3, 1], [5, 4, 3, 2, 1]])
+        simplify = False
     elif rng.random() < 0.12:
         # chains of two-variable rows through eliminated variables (tactic 4 recursion), ending in a bound or in a dead end
         ts, ctx, elim, order = chain_case(rng, refine)
